@@ -30,7 +30,7 @@ TEXT = {
 
 
 def main(ctx):
-    plan = PLANS[ctx.prop]
+    plan = PLANS.get(ctx.prop, [])       # also entered for the replay of C04 / C17 violations (no plan of their own here)
     fams = {}
     if getattr(ctx, "replay", None):
         j = json.load(open(ctx.replay))
